@@ -128,9 +128,11 @@ type st = {
   mutable times : bool;
   mutable cfg : cfg option;
   mutable backups : (string * seg list) list;
+  mutable raw : ((z * bytes) * bytes option) list option;    (* directory image loaded as bytes, not yet opened *)
+  mutable others : (string * int) list;                      (* files that are not segment files: name, size *)
 }
 
-let fresh () = { s = init_state; keys = false; times = false; cfg = None; backups = [] }
+let fresh () = { s = init_state; keys = false; times = false; cfg = None; backups = []; raw = None; others = [] }
 
 let params_of st = { ptimes = st.times; pkeys = st.keys }
 
@@ -279,7 +281,7 @@ let observe_dir st (l : seg list) (ro : bool) : string list =
   (match log_open h base c with
    | Err e -> res := ("open => " ^ err e) :: !res
    | Ok s' ->
-     let sub = { s = s'; keys = st.keys; times = st.times; cfg = Some c; backups = [] } in
+     let sub = { s = s'; keys = st.keys; times = st.times; cfg = Some c; backups = []; raw = None; others = [] } in
      res := List.rev_append (probe sub ["scan"]) !res;
      res := List.rev_append (probe sub ["get"; "1"]) !res;
      (match log_stat h sub.s with
@@ -326,9 +328,20 @@ let step st (f : string array) : string list =
   | "open" ->
     let c = parse_open f in
     st.keys <- c.ckeys; st.times <- c.ctimes;
-    (match log_open h st.s c with
-     | Err e -> [err e]
-     | Ok s' -> st.s <- s'; st.cfg <- Some c; ["ok"])
+    (match st.raw with
+     | Some files ->
+       (match open_dir crc32c h c files with
+        | Err e -> [err e]
+        | Ok s' ->
+          st.s <- s'; st.cfg <- Some c; st.raw <- None;
+          (* a successful Recover leaves no .recover file of the head behind *)
+          if c.crecover && not c.cro then
+            st.others <- List.filter (fun (n, _) -> not (Filename.check_suffix n ".log.recover")) st.others;
+          ["ok"])
+     | None ->
+       (match log_open h st.s c with
+        | Err e -> [err e]
+        | Ok s' -> st.s <- s'; st.cfg <- Some c; ["ok"]))
   | "close" ->
     (match log_close st.s with
      | Err e -> [err e]
@@ -425,7 +438,32 @@ let step st (f : string array) : string list =
     (match dir_stat (params_of st) st.s with
      | Err e -> [err e]
      | Ok ((x, y), z) -> [Printf.sprintf "ok %s %s %s" (string_of_z x) (string_of_z y) (string_of_z z)])
-  | "files" -> ["ok" ^ fmt_files (if st.s.lvirt then [] else st.s.segs) (params_of st)]
+  | "files" ->
+    let p = params_of st in
+    let pad z = Printf.sprintf "%020d" (int_of_z z) in
+    let short n = (let t = ref n in
+                   while String.length !t > 1 && !t.[0] = '0' && !t.[1] <> '.' do t := String.sub !t 1 (String.length !t - 1) done;
+                   if String.length !t > 0 && !t.[0] = '0' && String.length !t > 1 && !t.[1] = '.' then !t else !t) in
+    let vs v flags = (match v with V1 -> ":v1" | V2 -> Printf.sprintf ":v2:%d" flags) in
+    let iflags = (if p.ptimes then 1 else 0) + (if p.pkeys then 2 else 0) in
+    let entries = List.concat_map (fun sg ->
+        let b = pad sg.sbase in
+        (match sg.sidx with
+         | None -> []
+         | Some ix -> [(b ^ ".index", Printf.sprintf "%s:%s%s" (short (b ^ ".index")) (string_of_z (idx_size p ix)) (vs (fst ix) iflags))])
+        @ [(b ^ ".log", Printf.sprintf "%s:%s%s" (short (b ^ ".log")) (string_of_z (seg_log_size sg))
+              (if sg.sver = V1 && sg.srecs = [] then ":v1" else vs sg.sver 0))])
+        (if st.s.lvirt then [] else st.s.segs) in
+    (* index.Write removes a stale <index>.tmp when it (re)builds that index *)
+    let rebuilt n =
+      Filename.check_suffix n ".index.tmp" &&
+      List.exists (fun sg -> pad sg.sbase ^ ".index.tmp" = n &&
+                             (match sg.sidx with Some (_, _ :: _) -> true | _ -> false))
+        (if st.s.lvirt then [] else st.s.segs) in
+    st.others <- List.filter (fun (n, _) -> not (rebuilt n)) st.others;
+    let oth = List.map (fun (n, sz) -> (n, Printf.sprintf "%s:%d" (short n) sz)) st.others in
+    let all = List.sort (fun (a, _) (b, _) -> compare a b) (entries @ oth) in
+    ["ok" ^ String.concat "" (List.map (fun (_, d) -> " " ^ d) all)]
   | "disksize" ->
     let p = params_of st in
     let total = List.fold_left (fun acc sg ->
@@ -439,6 +477,33 @@ let step st (f : string array) : string list =
     observe_dir st l (a 2 = "1")
   | "bkclean" -> st.backups <- List.remove_assoc (a 1) st.backups; ["ok"]
   | "probe" -> probe st (List.tl (Array.to_list f))
+  | "loaddir" ->
+    (* name:hex pairs; segment files are <digits>.log / <digits>.index *)
+    let files = List.map (fun t ->
+        match String.index_opt t ':' with
+        | Some i -> (String.sub t 0 i, String.sub t (i + 1) (String.length t - i - 1))
+        | None -> failwith "loaddir token") (List.tl (Array.to_list f)) in
+    let is_digits s = s <> "" && String.for_all (fun ch -> ch >= '0' && ch <= '9') s in
+    let segname n suffix =
+      if Filename.check_suffix n suffix then
+        (let b = Filename.chop_suffix n suffix in if is_digits b then Some b else None)
+      else None in
+    let logs = List.filter_map (fun (n, hx) ->
+        match segname n ".log" with Some b -> Some (b, hx) | None -> None) files in
+    let idxs = List.filter_map (fun (n, hx) ->
+        match segname n ".index" with Some b -> Some (b, hx) | None -> None) files in
+    let logs = List.sort (fun (a, _) (b, _) -> compare a b) logs in
+    let raw = List.map (fun (b, hx) ->
+        ((z_of_string (string_of_int (int_of_string b)), bytes_of_hex hx),
+         (match List.assoc_opt b idxs with Some ih -> Some (bytes_of_hex ih) | None -> None))) logs in
+    st.raw <- Some raw;
+    st.others <- List.filter_map (fun (n, hx) ->
+        if segname n ".log" <> None then None
+        else if (match segname n ".index" with Some b -> List.mem_assoc b logs | None -> false) then None
+        else Some (n, (if hx = "-" then 0 else String.length hx / 2))) files;
+    st.s <- init_state;
+    ["ok"]
+  | "setlog" -> ["ok"]
   | "sleepms" -> ["ok"]
   | _ -> ["err UnknownOp"]
 
@@ -829,6 +894,13 @@ let run_check (path : string) =
              | "ok" :: _ :: cnt :: _ -> chk "C20" "backup_stat_count" (check_stat_count a (z_of_string cnt)) r
              | _ -> chk "C20" "backup_stat_ok" false r)
           | _ -> ()))
+    | "loaddir" :: _ -> c.tainted <- true; mutated c
+    | "setlog" :: next :: ms ->
+      (* the log as scanned after recovery: the other views must agree with it *)
+      c.a <- { live = List.map parse_full_msg ms; anext = z_of_string next };
+      c.tainted <- false;
+      c.mono_hist <- mono_times c.a.live; c.neg_time <- List.exists (fun m -> Z.ltb m.mtime Z0) c.a.live;
+      mutated c
     | ["rmindex"; _] | ["gc"] | ["sleepms"; _] | ["bkclean"; _] -> ()
     | ["migrate"; v] ->
       (match r with
